@@ -572,6 +572,8 @@ def run(ctx) -> None:
     ctx.step(_aware_instant, ctx)
     ctx.step(_caller_hack, ctx)
     ctx.step(_zone_resolution, ctx)
+    from . import C11
+    ctx.step(C11.native_tabulate, ctx, "ASTIMEZONE.tabulated", ("DateTime.astimezone",))
     ctx.expect_min("FUNNEL.aware", 2)
     ctx.expect_min("RECON.slot", 30)
     ctx.expect_min("TZINFO", 4)
